@@ -105,7 +105,12 @@ fn watch_conn(ctx: &Ctx, mut s: TcpStream, c: u32, pending: Option<u32>, wait: D
     let _ = s.set_read_timeout(Some(wait));
     if let Some(r) = pending {
         if big > 0 {
-            // a slow reader: the head, then the body in small pieces
+            // a slow reader: the head, then the body in small pieces; for an odd number of
+            // MiB the client first pauses, so that the response is still being transmitted
+            // well after the last handler has returned
+            if (big >> 20) % 2 == 1 {
+                std::thread::sleep(Duration::from_millis(1400));
+            }
             let mut got: Vec<u8> = Vec::new();
             let mut buf = vec![0u8; 32 * 1024];
             let mut need: Option<usize> = None;
